@@ -3,7 +3,7 @@
    produced (successful job executions, data losses) and the output it delivered. *)
 From Coq Require Import List Bool Arith NArith ZArith Ascii.
 From SF Require Import Base.Str Base.Dec Base.Corr.
-From SF Require Export Recovery.Model.
+From SF Require Export Recovery.Model Recovery.InjectModel.
 Import ListNotations.
 Local Open Scope string_scope. Local Open Scope list_scope.
 
@@ -68,8 +68,13 @@ Fixpoint run_checked (d : dag cval) (evs : list event) (s : store cval) : store 
       let '(s', ok') := run_checked d r (step d s e) in (s', ok && ok')
   end.
 
+Definition pt (i : N) (t : list N) (a : bool) : ptok := mkptok i t a.
+
 Inductive ccase :=
-| CRun (d : dag cval) (evs : list event) (out : nat) (completed : bool) (observed : option cval).
+| CRun (d : dag cval) (evs : list event) (out : nat) (completed : bool) (observed : option cval)
+(* the real _inject_tokens on one port: the mapper's tokens of that port (id, tag, availability) in mapper order, and the
+   ids it put on the port in order (None = FailureHandlingException) *)
+| CInject (l : list ptok) (r : option (list N)).
 
 Definition check_case (c : ccase) : bool :=
   match c with
@@ -80,4 +85,5 @@ Definition check_case (c : ccase) : bool :=
        then opt_eqb cval_eqb (s out) observed && opt_eqb cval_eqb (failure_free d out) observed &&
             match observed with Some _ => true | None => false end
        else true)
+  | CInject l r => opt_eqb (list_eqb N.eqb) (inject l) r
   end.
